@@ -458,6 +458,8 @@ def check_values_keep_dtype(prog, rep, rule, pub, entry=None):
         terms.extend(c.args)
         kws = c.kwargs.items() if isinstance(c.kwargs, dict) else c.kwargs
         terms.extend(v for _, v in kws)
+        if isinstance(c.result, tuple):
+            terms.append(c.result)      # the call itself (inside arithmetic a call is only an atom)
     for tgt, val, _g, _n in w.stores:
         terms.extend([tgt, val])
     rasters = set()
@@ -471,6 +473,13 @@ def check_values_keep_dtype(prog, rep, rule, pub, entry=None):
     if not rasters:
         return 0
     values = [p for p in params if p not in rasters]
+    # parameters that only select a coordinate by name (`raster.coords[ydim]`) are not values
+    dimnames = set()
+    for t in terms:
+        for x in twalk(t):
+            if isinstance(x, tuple) and len(x) == 3 and x[0] == 'index' and isinstance(x[1], tuple) and x[1][:1] == ('attr',) and \
+                    len(x[1]) == 3 and x[1][2] == 'coords':
+                dimnames.update(q for q in params if mentions(x[2], ('param', q)))     # also `coords[ydim if ydim else dims[-2]]`
 
     def raster_dtype(d):
         if not (isinstance(d, tuple) and len(d) == 3 and d[0] == 'attr' and d[2] == 'dtype'):
@@ -478,7 +487,13 @@ def check_values_keep_dtype(prog, rep, rule, pub, entry=None):
         r = d[1]
         if isinstance(r, tuple) and r[0] == 'data':
             r = r[1]
-        return r[1] if isinstance(r, tuple) and r[:1] == ('param',) and r[1] in rasters else None
+        if isinstance(r, tuple) and r[:1] == ('param',) and r[1] in rasters:
+            return r[1]
+        # the dtype of something taken from the raster alone - a coordinate vector (`raster.coords[ydim].data.dtype`)
+        own = [q for q in rasters if mentions(d[1], ('param', q))]
+        if len(own) == 1 and not any(mentions(d[1], ('param', v)) for v in values if v not in dimnames):
+            return own[0]
+        return None
     bad = []
     seen = set()
     for t in terms:
@@ -505,7 +520,7 @@ def check_values_keep_dtype(prog, rep, rule, pub, entry=None):
     rep.add(rule, pub, entry, "the caller's value parameters reach the kernels in their own dtype", pub.node.lineno, not bad,
             'a value parameter is cast to the dtype of the raster it is compared with: %s - a value that dtype cannot hold wraps or '
             'truncates onto a legitimate cell value (-1 is 255 on uint8, 0.5 is 0, NaN is INT_MIN)'
-            % '; '.join('`%s` squeezed into `%s`.dtype (%s)' % b for b in bad[:2]), trivial=not values)
+            % '; '.join('`%s` squeezed into the dtype of `%s` or of its coordinates (%s)' % b for b in bad[:2]), trivial=not values)
     return 1
 
 
